@@ -6,7 +6,7 @@
 From stdpp Require Import gmap.
 From Coq Require Import ZArith List.
 From Measured Require Import Model.FMap Model.Units Model.Intern Model.Parse Model.ParseCheck
-  Proofs.UnitsFacts Proofs.InternFacts Proofs.ParseFacts Model.LR Model.Lex Model.TextParse Proofs.TextParseFacts.
+  Proofs.UnitsFacts Proofs.InternFacts Proofs.ParseFacts Model.LR Model.Lex Model.TextParse Proofs.TextParseFacts Proofs.LexFacts.
 Import ListNotations.
 Local Open Scope Z_scope.
 
@@ -62,3 +62,21 @@ Theorem C13_text_roundtrip_is_term_roundtrip :
   unit_parse_text nm tab order ignore rules infos filtered terminals end_sym T (render l) = TUnit (eval_unit tab l None).
 Proof. exact text_roundtrip_is_term_roundtrip. Qed.
 Print Assumptions C13_text_roundtrip_is_term_roundtrip.
+
+(* the first step of reading a printed unit back: when the (class)+ terminal -- SYMBOL; the shape is checked on the regenerated
+   expression at every run -- is the first candidate that matches, the scanner takes the whole run of class characters as one token:
+   a printed symbol is never split, whatever its length, and the rest begins at the first character outside the class
+   (a superscript, the dot operator, a blank) *)
+Theorem C13_symbol_is_one_token : forall cands_before t cands_after body P x s,
+  tm_re t = RPlus body -> is_class body P -> P x = true ->
+  (forall u, In u cands_before -> rmatch (tm_re u) (x :: s) = None) ->
+  first_match (cands_before ++ t :: cands_after) (x :: s) = Some (tm_id t, x :: take_while P s, drop_while P s).
+Proof. exact class_plus_token. Qed.
+Print Assumptions C13_symbol_is_one_token.
+
+(* the exponent a unit is printed with reads back as the same integer, for EVERY integer (not digit by digit): superscript
+   spelling, optional superscript minus, most significant digit first.  1 is printed as nothing and read by the bare-symbol
+   rule.  The bound is the model printer's digit budget (CPython's own int->str limit is 4300 digits). *)
+Theorem C13_superscript_reads_back : forall e, e <> 1 -> Z.abs e < 10 ^ 400 -> super_value (superscript e) = Some e.
+Proof. exact superscript_reads_back. Qed.
+Print Assumptions C13_superscript_reads_back.
